@@ -1658,24 +1658,20 @@ func (p *scionPacketProcessor) egressRouterAlertFlag() *bool {
 
 func (p *slowPathPacketProcessor) handleSCMPTraceRouteRequest(ifID uint16) error {
 	if p.lastLayer.NextLayerType() != slayers.LayerTypeSCMP {
-		log.Debug("Packet with router alert, but not SCMP")
-		return nil
+		return serrors.New("Packet with router alert, but not SCMP")
 	}
 	scionPld := p.lastLayer.LayerPayload()
 	var scmpH slayers.SCMP
 	if err := scmpH.DecodeFromBytes(scionPld, gopacket.NilDecodeFeedback); err != nil {
-		log.Debug("Parsing SCMP header of router alert", "err", err)
-		return nil
+		return serrors.Wrap("parsing SCMP header of router alert", err)
 	}
 	if scmpH.TypeCode != slayers.CreateSCMPTypeCode(slayers.SCMPTypeTracerouteRequest, 0) {
-		log.Debug("Packet with router alert, but not traceroute request",
+		return serrors.New("Packet with router alert, but not traceroute request",
 			"type_code", scmpH.TypeCode)
-		return nil
 	}
 	var scmpP slayers.SCMPTraceroute
 	if err := scmpP.DecodeFromBytes(scmpH.Payload, gopacket.NilDecodeFeedback); err != nil {
-		log.Debug("Parsing SCMPTraceroute", "err", err)
-		return nil
+		return serrors.Wrap("parsing SCMPTraceroute", err)
 	}
 	scmpP = slayers.SCMPTraceroute{
 		Identifier: scmpP.Identifier,
